@@ -146,3 +146,150 @@ pub fn nested(n: &NestedMeta) -> Sx {
         NestedMeta::Lit(l) => tagged("nl", vec![lit(l)]),
     }
 }
+
+// ------------------------------------------------------------------ declarations / input elements
+
+/// field type → the model's closed universe (`Ty`); anything else is `(recv "Name")` for a bare
+/// identifier (a receiver of the corpus) or `(opaque "tokens")`
+pub fn ty_sx(t: &syn::Type) -> Sx {
+    let s = toks(t).replace(' ', "");
+    fn ints(n: &str) -> Option<Sx> {
+        const NAMES: &[&str] = &["u8", "u16", "u32", "u64", "u128", "usize", "i8", "i16", "i32", "i64", "i128", "isize"];
+        if NAMES.contains(&n) {
+            Some(tagged("int", vec![st(n)]))
+        } else {
+            None
+        }
+    }
+    fn go(s: &str) -> Sx {
+        if let Some(i) = ints(s) {
+            return i;
+        }
+        let wrap = |pre: &str, tag: &str, extra: Option<&str>| -> Option<Sx> {
+            s.strip_prefix(pre).and_then(|r| r.strip_suffix('>')).map(|inner| {
+                let mut v = vec![];
+                if let Some(e) = extra {
+                    v.push(st(e));
+                }
+                v.push(go(inner));
+                tagged(tag, v)
+            })
+        };
+        match s {
+            "()" => return atom("unit"),
+            "bool" => return atom("bool"),
+            "char" => return atom("char"),
+            "String" => return atom("string"),
+            "f64" => return tagged("float", vec![nat(64)]),
+            "f32" => return tagged("float", vec![nat(32)]),
+            "Flag" | "darling::util::Flag" => return atom("flag"),
+            "syn::Path" => return atom("syn-path"),
+            "syn::Ident" => return atom("syn-ident"),
+            "syn::Expr" => return atom("syn-expr"),
+            "syn::LitStr" => return tagged("lit-kind", vec![st("Str")]),
+            "PathList" | "darling::util::PathList" => return atom("path-list"),
+            _ => {}
+        }
+        if let Some(x) = wrap("Option<", "option", None) { return x; }
+        if let Some(x) = wrap("Box<", "ptr", Some("Box")) { return x; }
+        if let Some(x) = wrap("Rc<", "ptr", Some("Rc")) { return x; }
+        if let Some(x) = wrap("Vec<", "vec", None) { return x; }
+        if let Some(x) = wrap("Override<", "override", None) { return x; }
+        if let Some(x) = wrap("SpannedValue<", "spanned", None) { return x; }
+        if let Some(x) = wrap("darling::Result<", "result", None) { return x; }
+        if let Some(r) = s.strip_prefix("HashMap<String,").and_then(|r| r.strip_suffix('>')) {
+            return tagged("map", vec![st("hash_map"), st("String"), go(r)]);
+        }
+        if let Some(r) = s.strip_prefix("BTreeMap<String,").and_then(|r| r.strip_suffix('>')) {
+            return tagged("map", vec![st("btree_map"), st("String"), go(r)]);
+        }
+        if !s.is_empty() && s.chars().all(|c| c.is_alphanumeric() || c == '_') {
+            return tagged("recv", vec![st(s)]);
+        }
+        tagged("opaque", vec![st(s)])
+    }
+    go(&s)
+}
+
+pub fn attr(a: &syn::Attribute) -> Sx {
+    let (lo, hi) = sp2(a.span());
+    tagged("attr", vec![path(a.path()), meta(&a.meta), st(toks(a)), lo, hi])
+}
+
+pub fn field(f: &syn::Field) -> Sx {
+    let (lo, hi) = sp2(f.span());
+    let (ilo, ihi) = f.ident.as_ref().map(|i| sp2(i.span())).unwrap_or((nat(0), nat(0)));
+    tagged(
+        "field",
+        vec![
+            f.ident.as_ref().map(|i| st(i.to_string())).unwrap_or_else(none),
+            ty_sx(&f.ty),
+            st(toks(&f.ty)),
+            st(toks(&f.vis)),
+            list(f.attrs.iter().map(attr).collect()),
+            ilo,
+            ihi,
+            lo,
+            hi,
+        ],
+    )
+}
+
+pub fn style(f: &syn::Fields) -> Sx {
+    match f {
+        syn::Fields::Named(_) => atom("named"),
+        syn::Fields::Unnamed(_) => atom("tuple"),
+        syn::Fields::Unit => atom("unit"),
+    }
+}
+
+pub fn variant(v: &syn::Variant) -> Sx {
+    let (lo, hi) = sp2(v.span());
+    let (ilo, ihi) = sp2(v.ident.span());
+    tagged(
+        "variant",
+        vec![
+            st(v.ident.to_string()),
+            style(&v.fields),
+            list(v.fields.iter().map(field).collect()),
+            list(v.attrs.iter().map(attr).collect()),
+            v.discriminant.as_ref().map(|(_, e)| st(toks(e))).unwrap_or_else(none),
+            ilo,
+            ihi,
+            lo,
+            hi,
+        ],
+    )
+}
+
+pub fn body(d: &syn::Data) -> Sx {
+    match d {
+        syn::Data::Struct(s) => tagged("struct", vec![style(&s.fields), list(s.fields.iter().map(field).collect())]),
+        syn::Data::Enum(e) => tagged("enum", vec![list(e.variants.iter().map(variant).collect())]),
+        syn::Data::Union(_) => atom("union"),
+    }
+}
+
+pub fn derive_input(di: &syn::DeriveInput) -> Sx {
+    let (ilo, ihi) = sp2(di.ident.span());
+    let (ig, _, wc) = di.generics.split_for_impl();
+    tagged(
+        "decl",
+        vec![
+            st(di.ident.to_string()),
+            st(toks(&di.vis)),
+            tagged(
+                "generics",
+                vec![
+                    list(di.generics.type_params().map(|p| st(p.ident.to_string())).collect()),
+                    st(toks(&ig)),
+                    st(wc.map(|w| toks(w)).unwrap_or_default()),
+                ],
+            ),
+            list(di.attrs.iter().map(attr).collect()),
+            body(&di.data),
+            ilo,
+            ihi,
+        ],
+    )
+}
